@@ -3,6 +3,8 @@ package harness
 import (
 	"bytes"
 
+	"github.com/buildbarn/bb-storage/pkg/digest"
+
 	"vsim/sim"
 
 	"google.golang.org/grpc/codes"
@@ -35,6 +37,16 @@ func c08Profile(ac bool) func(c *sim.RunCtx) {
 			Insts:        []string{""},
 			MaxHolds:     []int{0, 3}[t.Choose(2)],
 			PutWeight:    5, GetWeight: 6, FindWeight: 3, CompWeight: 0,
+		}
+		if !ac && t.Chance(1, 3) {
+			// the hierarchical CAS: an upload of an object that already exists
+			// under another name is acknowledged by pointing at the existing
+			// copy, whose block may be quarantined while the upload's body is
+			// still being consumed
+			cfg.Hier = true
+			cfg.KeyFormat = digest.KeyWithInstance
+			wo.Insts = []string{"", "a", "a/b"}
+			c.Count("probe_hierarchical_run", 1)
 		}
 		corruptRate := []int{20, 60, 150}[t.Choose(3)] // per 10000 steps
 		before := indexDiscardCount()
@@ -147,9 +159,30 @@ func c08Profile(ac bool) func(c *sim.RunCtx) {
 					}
 					break
 				}
+				// (g) whichever way it was acknowledged (new copy, or a
+				// reference to an existing one), the object is present right
+				// afterwards, unless something happened in between
+				if !ac && !c.Failed() {
+					d := w.m.digestOf(w.m.objs[op.Obj], op.Inst)
+					det0, alloc0 := u.RetDetections, u.RetAllocs
+					missing, ferr := w.e.ba.FindMissing(w.ctx, d.ToSingletonSet())
+					// (a detection is a lock-free event inside another
+					// caller's read: one that lands after this upload's body
+					// was consumed may fall between the upload's last look at
+					// the index and its return, and either order is a valid
+					// history; one that landed before must have been seen)
+					if ferr == nil && !missing.Empty() && len(w.e.detections) == u.BodyDetections && det0 == u.BodyDetections && w.allocs() == alloc0 && !discards() {
+						c.Fail("acknowledged-upload-not-present", "%s was acknowledged, yet the object is reported missing under the same name right afterwards, although every detection so far (%d) happened before the upload's body had been consumed, no block was allocated since it returned and the index never discarded an entry", op, det0)
+						return
+					}
+					if len(w.e.detections) > 0 {
+						c.Count("probe_acknowledged_upload_present_after_detection", 1)
+					}
+				}
 			}
 			w.onGetDone = func(op *storeOp, res int, invokeAlloc int) {
-				if res != getNotFound {
+				if res != getNotFound || cfg.Hier {
+					// (hierarchical: which names a copy is visible under is not recorded per block write)
 					return
 				}
 				// (d) objects in newer blocks are unaffected
